@@ -56,56 +56,56 @@ Proof.
 Qed.
 
 (* ------------------------------------------------------------------------------------ *)
-(* FULL STATEMENT (false of the current code): a macro that reaches itself through any chain
-   of PASTEs is rejected with an error instead of being expanded.  Refuted (finding F3): the
-   recursion check looks only for a PASTE of the macro's own name, and two macros pasting each
-   other are expanded without end — for EVERY amount of fuel the expansion runs out. *)
+(* cycles: when the recursion check passes, no PASTE inside any macro names that macro or a
+   macro that leads back to it *)
+Lemma first_some_none {A B} (f : A -> option B) l :
+  first_some f l = None -> forall x, In x l -> f x = None.
+Proof.
+  induction l as [|y l IH]; intros H x Hx; [destruct Hx|].
+  cbn [first_some] in H. destruct (f y) eqn:E; [discriminate|].
+  destruct Hx as [->|Hx]; auto.
+Qed.
+
+Theorem recursion_check_sound :
+  forall depth ms,
+    check_recursion depth ms = None ->
+    forall name m, In (name, m) ms ->
+    forall p, In p (macro_pastes depth m) ->
+      named p KName <> [] /\ named p KName <> name /\
+      reaches (S (List.length ms)) depth ms (named p KName) name = false.
+Proof.
+  intros depth ms H name m Hin p Hp. unfold check_recursion in H.
+  pose proof (first_some_none _ _ H (name, m) Hin) as F. cbn [fst snd] in F.
+  unfold find_paste in F. pose proof (first_some_none _ _ F p Hp) as V.
+  unfold paste_verdict in V.
+  destruct (beq (named p KName) []) eqn:E1; [discriminate|].
+  destruct (beq (named p KName) name) eqn:E2; [discriminate|].
+  destruct (reaches (S (List.length ms)) depth ms (named p KName) name) eqn:E3; [discriminate|].
+  repeat split; auto.
+  - intros E. rewrite E in E1. cbn in E1. discriminate.
+  - intros E. rewrite E in E2. unfold beq in E2.
+    assert (N_eqb_list name name = true).
+    { clear. induction name as [|x l IH]; cbn; auto. rewrite N.eqb_refl. exact IH. }
+    congruence.
+Qed.
+
+(* the two-macro and three-macro cycles that used to overflow the stack (finding F3, fixed in
+   /repo) are now rejected with the recursion error at the PASTE that starts the chain *)
 Definition body_of_paste (name : string) (pos : Z) : list dir := [mk_paste (str name) pos].
+Definition mk_macro (name target : string) (pos : Z) : bytes * dir :=
+  (str name, mkDir DirectiveTables.dir_Macro (str "MACRO") (mkCoords 0 pos (pos + 4)) [(KName, str name)] [] []
+                   None true [] (body_of_paste target (pos + 11))).
 
-Definition macro_a : dir :=
-  mkDir DirectiveTables.dir_Macro (str "MACRO") (mkCoords 0 11 15) [(KName, str "@a")] [] [] None true []
-        (body_of_paste "@b" 22).
-Definition macro_b : dir :=
-  mkDir DirectiveTables.dir_Macro (str "MACRO") (mkCoords 0 33 37) [(KName, str "@b")] [] [] None true []
-        (body_of_paste "@a" 44).
-Definition cyc_macros : macros := [(str "@a", macro_a); (str "@b", macro_b)].
+Definition cyc2 : macros := [mk_macro "@a" "@b" 11; mk_macro "@b" "@a" 33].
+Definition cyc3 : macros := [mk_macro "@a" "@b" 11; mk_macro "@b" "@c" 33; mk_macro "@c" "@a" 55].
 
-Lemma cycle2_not_detected : check_recursion 10 cyc_macros = [].
-Proof. vm_compute. reflexivity. Qed.
+Definition is_recursion_error_at (r : option cerr) (pos : Z) : bool :=
+  match r with
+  | Some e => (e_index e =? pos) && beq (List.concat (m_args (e_msg e))) (str ErrConsts.jerr_RecursionIsProhibited)
+  | None => false
+  end.
 
-(* the divergence does not depend on where the PASTE stands: generalise over the offset *)
-Lemma cycle2_diverges echeck :
-  forall fuel xs pos,
-    expand_dir echeck cyc_macros fuel xs (mk_paste (str "@a") pos) = CFuel /\
-    expand_dir echeck cyc_macros fuel xs (mk_paste (str "@b") pos) = CFuel.
-Proof.
-  induction fuel as [|fuel IH]; intros xs pos; [split; reflexivity|].
-  split.
-  - cbn [expand_dir].
-    replace (N.eqb (d_kind (mk_paste (str "@a") pos)) DirectiveTables.dir_Paste) with true by reflexivity.
-    replace (d_annot (mk_paste (str "@a") pos)) with (@nil N) by reflexivity.
-    rewrite named_mk_paste.
-    replace (negb (beq [] [])) with false by reflexivity.
-    replace (beq (str "@a") []) with false by reflexivity.
-    replace (macro_lookup cyc_macros (str "@a")) with (Some macro_a) by reflexivity.
-    replace (build_rules echeck xs (d_children macro_a)) with (COk (A:=xstate) xs) by reflexivity.
-    replace (d_children macro_a) with [mk_paste (str "@b") 22] by reflexivity.
-    destruct (IH xs 22) as [_ Hb]. rewrite Hb. reflexivity.
-  - cbn [expand_dir].
-    replace (N.eqb (d_kind (mk_paste (str "@b") pos)) DirectiveTables.dir_Paste) with true by reflexivity.
-    replace (d_annot (mk_paste (str "@b") pos)) with (@nil N) by reflexivity.
-    rewrite named_mk_paste.
-    replace (negb (beq [] [])) with false by reflexivity.
-    replace (beq (str "@b") []) with false by reflexivity.
-    replace (macro_lookup cyc_macros (str "@b")) with (Some macro_b) by reflexivity.
-    replace (build_rules echeck xs (d_children macro_b)) with (COk (A:=xstate) xs) by reflexivity.
-    replace (d_children macro_b) with [mk_paste (str "@a") 44] by reflexivity.
-    destruct (IH xs 44) as [Ha _]. rewrite Ha. reflexivity.
-Qed.
-
-Theorem cycle_of_length_two_refuted :
-  check_recursion 10 cyc_macros = [] /\
-  forall echeck fuel xs, expand_dir echeck cyc_macros fuel xs (mk_paste (str "@a") 55) = CFuel.
-Proof.
-  split; [exact cycle2_not_detected|]. intros echeck fuel xs. apply cycle2_diverges.
-Qed.
+Theorem longer_cycles_are_rejected :
+  is_recursion_error_at (check_recursion 10 cyc2) 22 = true /\
+  is_recursion_error_at (check_recursion 10 cyc3) 22 = true.
+Proof. split; vm_compute; reflexivity. Qed.
